@@ -1,0 +1,22 @@
+//go:build !verif
+// +build !verif
+
+package nutsdb
+
+const verifEnabled = false
+
+// No-op counterparts of the verification hooks in verif_hook.go; without the
+// build tag "verif" every hook call site compiles to nothing.
+
+type VerifFault struct {
+	Err     error
+	Partial int
+}
+
+func verifRegister(p interface{}, path string) {}
+
+func verifPathOf(p interface{}) string { return "" }
+
+func verifForget(p interface{}) {}
+
+func verifOp(kind, path string, off, size int64, data []byte) *VerifFault { return nil }
